@@ -45,3 +45,29 @@ package search
 //@ func Bucket.Finish
 //@   props C16 C09
 //@   opaque
+
+// a copy of a sort order shares nothing that Reverse writes
+//@ func SortOrder.Copy() (rv)
+//@   props C09
+//@   requires [no-nil-entries] forall j int :: (0 <= j && j < len(o)) ==> o[j] != nil
+//@   modifies
+//@   ensures len(rv) == len(o)
+//@   ensures [copy-is-new] forall j int :: (0 <= j && j < len(rv)) ==> (fresh(rv[j]) && rv[j] != nil)
+//@   ensures [same-directions] forall j int :: (0 <= j && j < len(rv)) ==> (rv[j].desc == o[j].desc && rv[j].missingFirst == o[j].missingFirst)
+//@   loop 1
+//@     invariant len(rv) == len(o) && fresh(rv)
+//@     invariant forall j int :: (0 <= j && j <= rangeindex) ==> (fresh(rv[j]) && rv[j] != nil)
+//@     invariant forall j int :: (0 <= j && j <= rangeindex) ==> (rv[j].desc == o[j].desc && rv[j].missingFirst == o[j].missingFirst)
+//@ func Sort.copy() (rv)
+//@   props C09
+//@   requires s != nil
+//@   modifies
+//@   ensures fresh(rv) && rv != nil
+//@   ensures rv.desc == s.desc && rv.missingFirst == s.missingFirst
+//@ func SortOrder.Reverse()
+//@   props C09
+//@   requires forall j int :: (0 <= j && j < len(o)) ==> o[j] != nil
+//@   modifies Sort.desc, Sort.missingFirst
+//@   ensures [writes-only-its-own-entries] forall s ref :: (forall j int :: (0 <= j && j < len(o)) ==> o[j] != s) ==> (ptr(Sort, s).desc == old(ptr(Sort, s).desc) && ptr(Sort, s).missingFirst == old(ptr(Sort, s).missingFirst))
+//@   loop 1
+//@     invariant forall s ref :: (forall j int :: (0 <= j && j < len(o)) ==> o[j] != s) ==> (ptr(Sort, s).desc == old(ptr(Sort, s).desc) && ptr(Sort, s).missingFirst == old(ptr(Sort, s).missingFirst))
